@@ -1307,6 +1307,24 @@ class NLargest(ReductionConstantDim):
             return {}
         return {"columns": self._columns}
 
+    def _simplify_up(self, parent, dependents):
+        if isinstance(parent, Projection) and self._columns is not None:
+            # The columns we order by have to stay in the frame
+            by = self._columns if isinstance(self._columns, list) else [self._columns]
+            columns = determine_column_projection(
+                self, parent, dependents, additional_columns=by
+            )
+            if not isinstance(columns, list):
+                columns = [columns]
+            columns = [col for col in self.frame.columns if col in columns]
+            if self.frame.columns == columns:
+                return
+            return type(parent)(
+                type(self)(self.frame[columns], *self.operands[1:]),
+                parent.operand("columns"),
+            )
+        return super()._simplify_up(parent, dependents)
+
     @property
     def chunk_kwargs(self):
         return {"n": self.n, **self._columns_kwarg()}
